@@ -355,138 +355,3 @@ impl serde::ser::Error for NoMsg {
 pub(crate) fn stub_fmt_format(_args: std::fmt::Arguments<'_>) -> String {
     String::new()
 }
-
-// ---------------------------------------------------------------------------------------------
-// Structural stand-in for the bencode *text parser*: a parsed bencode value that drives serde
-// visitors exactly the way torrust-serde-bencode's Deserializer does (deserialize_any: int ->
-// visit_i64, bytes -> visit_bytes, list -> visit_seq, dict -> visit_map with byte-string keys;
-// deserialize_option -> visit_some; deserialize_str/identifier -> utf-8 check then visit_str;
-// newtype -> visit_newtype_struct; enum -> variant from a byte string). btdht's Deserialize impls
-// and serde's derive glue (untagged, flatten, Option, Cow) are the real code; only the lexer
-// (digits -> lengths -> allocation, DESIGN.md F8/F14) is replaced.
-// ---------------------------------------------------------------------------------------------
-
-#[derive(Clone)]
-pub(crate) enum Val<'a> {
-    Int(i64),
-    Bytes(&'a [u8]),
-    List(Vec<Val<'a>>),
-    Dict(Vec<(&'a [u8], Val<'a>)>),
-}
-
-pub(crate) struct ValSeq<'a> {
-    items: std::vec::IntoIter<Val<'a>>,
-}
-
-impl<'de, 'a> serde::de::SeqAccess<'de> for ValSeq<'a> {
-    type Error = NoMsg;
-    fn next_element_seed<T: serde::de::DeserializeSeed<'de>>(&mut self, seed: T) -> Result<Option<T::Value>, NoMsg> {
-        match self.items.next() {
-            Some(v) => seed.deserialize(v).map(Some),
-            None => Ok(None),
-        }
-    }
-}
-
-pub(crate) struct ValMap<'a> {
-    items: std::vec::IntoIter<(&'a [u8], Val<'a>)>,
-    pending: Option<Val<'a>>,
-}
-
-impl<'de, 'a> serde::de::MapAccess<'de> for ValMap<'a> {
-    type Error = NoMsg;
-    fn next_key_seed<K: serde::de::DeserializeSeed<'de>>(&mut self, seed: K) -> Result<Option<K::Value>, NoMsg> {
-        match self.items.next() {
-            Some((k, v)) => {
-                self.pending = Some(v);
-                seed.deserialize(Val::Bytes(k)).map(Some)
-            }
-            None => Ok(None),
-        }
-    }
-    fn next_value_seed<V: serde::de::DeserializeSeed<'de>>(&mut self, seed: V) -> Result<V::Value, NoMsg> {
-        match self.pending.take() {
-            Some(v) => seed.deserialize(v),
-            None => Err(NoMsg),
-        }
-    }
-}
-
-pub(crate) struct ValEnum<'a>(Val<'a>);
-
-impl<'de, 'a> serde::de::EnumAccess<'de> for ValEnum<'a> {
-    type Error = NoMsg;
-    type Variant = ValUnit;
-    fn variant_seed<V: serde::de::DeserializeSeed<'de>>(self, seed: V) -> Result<(V::Value, ValUnit), NoMsg> {
-        match self.0 {
-            Val::Bytes(_) => Ok((seed.deserialize(self.0)?, ValUnit)),
-            _ => Err(NoMsg),
-        }
-    }
-}
-
-pub(crate) struct ValUnit;
-
-impl<'de> serde::de::VariantAccess<'de> for ValUnit {
-    type Error = NoMsg;
-    fn unit_variant(self) -> Result<(), NoMsg> {
-        Ok(())
-    }
-    fn newtype_variant_seed<T: serde::de::DeserializeSeed<'de>>(self, _seed: T) -> Result<T::Value, NoMsg> {
-        Err(NoMsg)
-    }
-    fn tuple_variant<V: serde::de::Visitor<'de>>(self, _len: usize, _visitor: V) -> Result<V::Value, NoMsg> {
-        Err(NoMsg)
-    }
-    fn struct_variant<V: serde::de::Visitor<'de>>(self, _fields: &'static [&'static str], _visitor: V) -> Result<V::Value, NoMsg> {
-        Err(NoMsg)
-    }
-}
-
-impl<'de, 'a> serde::de::Deserializer<'de> for Val<'a> {
-    type Error = NoMsg;
-
-    fn deserialize_any<V: serde::de::Visitor<'de>>(self, visitor: V) -> Result<V::Value, NoMsg> {
-        match self {
-            Val::Int(i) => visitor.visit_i64(i),
-            Val::Bytes(b) => visitor.visit_bytes(b),
-            Val::List(l) => visitor.visit_seq(ValSeq { items: l.into_iter() }),
-            Val::Dict(d) => visitor.visit_map(ValMap { items: d.into_iter(), pending: None }),
-        }
-    }
-
-    serde::forward_to_deserialize_any! {
-        bool char i8 i16 i32 i64 u8 u16 u32 u64 f32 f64 unit bytes byte_buf seq map unit_struct
-        tuple_struct ignored_any struct tuple
-    }
-
-    fn deserialize_newtype_struct<V: serde::de::Visitor<'de>>(self, _name: &'static str, visitor: V) -> Result<V::Value, NoMsg> {
-        visitor.visit_newtype_struct(self)
-    }
-
-    fn deserialize_option<V: serde::de::Visitor<'de>>(self, visitor: V) -> Result<V::Value, NoMsg> {
-        visitor.visit_some(self)
-    }
-
-    fn deserialize_enum<V: serde::de::Visitor<'de>>(self, _name: &str, _variants: &'static [&'static str], visitor: V) -> Result<V::Value, NoMsg> {
-        visitor.visit_enum(ValEnum(self))
-    }
-
-    fn deserialize_str<V: serde::de::Visitor<'de>>(self, visitor: V) -> Result<V::Value, NoMsg> {
-        match self {
-            Val::Bytes(b) => match std::str::from_utf8(b) {
-                Ok(s) => visitor.visit_str(s),
-                Err(_) => Err(NoMsg),
-            },
-            _ => Err(NoMsg),
-        }
-    }
-
-    fn deserialize_string<V: serde::de::Visitor<'de>>(self, visitor: V) -> Result<V::Value, NoMsg> {
-        self.deserialize_str(visitor)
-    }
-
-    fn deserialize_identifier<V: serde::de::Visitor<'de>>(self, visitor: V) -> Result<V::Value, NoMsg> {
-        self.deserialize_str(visitor)
-    }
-}
